@@ -285,6 +285,16 @@ def rule_run_exit(m, rep, flagname, only=None):
         return
     if lm.dkind == 'blocking':
         okd = any(l in dom.get(lm.d, ()) for l, _ in loads)
+        if not okd:
+            # the test may sit in front of the loop and at the end of each iteration (`if !finished() { for m in rx.iter() { ..;
+            # if finished() { break } } }`): what matters is that no path reaches the blocking receive - from the entry, or from
+            # the previous receive - without a test of the flag
+            lb = set(l for l, _ in loads)
+            for bi, t in body.calls():
+                if not body.blocks[bi]['cleanup'] and bi not in lm.loop and callee_is(t, 'core::sync::atomic::Atomic::load'):
+                    if self_field_name(norm(T.call_term(bi))[2][0]) == flagname:
+                        lb.add(bi)
+            okd = C.must_pass(body, 0, {lm.d}, lb) and all(C.must_pass(body, s, {lm.d}, lb) for s in body.succs(lm.d, False))
         rep.ob('R1b', 'run/flag-checked-before-blocking', okd, body.where(lm.d),
                'in every iteration the stop flag is tested before the blocking receive' if okd else
                'the blocking receive is not preceded by a test of the stop flag in the same iteration: a worker respawned '
@@ -524,6 +534,17 @@ def rule_sentinel(m, rep, count=True):
     rep.ob('R1', 'cancel-only-after-normal-return', ok2, b.where(cc[0]) if cc else b.where(),
            'cancel() is called once, after run() returned normally, never on the unwind path' if ok2 else
            'cancel() is misplaced (before run, on the unwind path, or missing): a panic would not respawn the worker / a normal exit would')
+    # the thread does its job unconditionally: every way through the closure enters run() (a thread that may return at once -
+    # "already stopped" - leaves what is queued behind), and every normal return of run() disarms the sentinel (a condition
+    # on the cancel turns a clean stop into a respawn: a worker that lives, and holds the sink, forever)
+    exits_ = set(C.exits(b, False))
+    ok_run = C.must_pass(b, 0, exits_, {rn})
+    rep.ob('R1', 'run-entered-on-every-path', ok_run, b.where(rn), 'the worker thread always enters run()' if ok_run else
+           'the worker thread can return without entering run(): what is queued for it is never delivered')
+    ok_cc = bool(cc) and rt.get('target') is not None and C.must_pass(b, rt['target'], exits_, set(cc))
+    rep.ob('R1', 'cancel-after-every-normal-return', ok_cc, b.where(cc[0]) if cc else b.where(),
+           'after run() returned normally the sentinel is always disarmed' if ok_cc else
+           'after a normal return of run() the sentinel can stay armed: its destructor respawns a worker although nothing panicked')
     drops_n = [bi for bi in normal if b.blocks[bi]['term']['k'] == 'drop' and type_head(b.blocks[bi]['term']['ty']) == S]
     # an explicit `drop(sentinel)` is a drop
     drops_n += [bi for bi in normal if b.blocks[bi]['term']['k'] == 'call' and callee_is(b.blocks[bi]['term'], 'core::mem::drop') and
@@ -626,6 +647,16 @@ def rule_sentinel(m, rep, count=True):
             # the spawn function may take `&Arc<Worker>` and clone it itself: then the sentinel's own Arc is passed by reference
             oka2 = peel_root(a) == ('param', 1) and not any(y[0] == 'call' for y in walk(a))
         rep.ob('R2', 'sentinel-drop/respawns-same-worker', oka2, ib.where(s), 'respawn gets a clone of the sentinel\'s own Arc<worker>' if oka2 else 'respawn receives %s' % fmt(a))
+    # the replacement thread is started like the first one: whatever else the spawn function is told (a stack size, a name,
+    # a priority) is the same at the respawn site as in build()
+    first = [norm(Terms(m.build).call_term(bi)) for bi, t_ in m.build.calls() if t_.get('resolved') == m.spawn.path and not m.build.blocks[bi]['cleanup']]
+    if first and sp:
+        extra0 = tuple(first[0][2][1:])
+        same = all(tuple(norm(T.call_term(s))[2][1:]) == extra0 for s in sp) and all(tuple(f_[2][1:]) == extra0 for f_ in first)
+        rep.ob('R2', 'sentinel-drop/respawn-configured-like-first-spawn', same, ib.where(sorted(sp)[0]),
+               'the respawn passes the same settings to the spawn function as build() does' if same else
+               'the replacement worker thread is started with other settings (%s) than the first one (%s)' % (
+                   [fmt(x) for s in sp for x in norm(T.call_term(s))[2][1:]], [fmt(x) for x in extra0]))
     Tb = Terms(b)
     ra = norm(Tb.call_term(rn))[2][0]
     na = norm(Tb.call_term(nw))[2][0]
